@@ -220,8 +220,8 @@ def replay(path):
     with open(path) as f:
         rec = json.load(f)
     if rec.get("engine") == "L":
-        from vf.pylift import replay as lreplay
-        return lreplay.replay(rec)
+        from vf.pylift import lrun
+        return lrun.replay(rec)
     mod = _load(rec["module"], rec.get("cfg"))
     args = unjson(rec["counterexample"]["args"])
     kwargs = unjson(rec["counterexample"].get("kwargs", {}))
